@@ -124,6 +124,29 @@ def load_routes(text, n):
             yield "%d_files" % k, (lambda fs=files: load_dcop_from_file(fs))
 
 
+def refactored(text, n):
+    """the same document written another way: a global `hosting_costs.default` (non-zero) is added while every agent keeps its own
+    explicit default (an agent's default overrides the global one, also when it is 0), and - every other time - the global route
+    default is changed while every route that relied on it is written out.  What the agents answer must not change."""
+    import yaml
+    doc = yaml.safe_load(text)
+    hc = doc.get("hosting_costs")
+    names = list(doc.get("agents") or {})
+    if not isinstance(hc, dict) or not names or "default" in hc:
+        return None
+    for a in names:
+        hc.setdefault(a, {}).setdefault("default", 0)
+    hc["default"] = 7 + n % 3
+    if n % 2 and isinstance(doc.get("routes"), dict):
+        rt = doc["routes"]
+        d0 = rt.get("default", 1)
+        for i, a in enumerate(names):
+            for b in names[i + 1:]:
+                if b not in (rt.get(a) or {}) and a not in (rt.get(b) or {}):
+                    rt.setdefault(a, {})[b] = d0
+    return yaml.safe_dump(doc, default_flow_style=False)
+
+
 def run(tier):
     quick = tier == "quick"
     v = Verdict("C14", tier, "exploration")
@@ -152,14 +175,21 @@ def run(tier):
                 recs.append({"id": len(recs), "orig": orig, "loaded": orig, "exc": "dump: %s: %s" % (type(e).__name__, str(e)[:80])})
                 meta[recs[-1]["id"]] = {"route": "dump", "inst": inst, "dep": dep, "n": n}
                 continue
-            for route, load in load_routes(text, n):
+            routes = list(load_routes(text, n))
+            try:
+                t2 = refactored(text, n)
+            except Exception:    # noqa  (a document my rewriting cannot handle is simply not rewritten)
+                t2 = None
+            if t2:
+                routes.append(("rewritten_with_global_defaults", lambda _t=t2: load_dcop(_t)))
+            for route, load in routes:
                 rec = {"id": len(recs), "orig": orig, "loaded": orig, "exc": ""}
                 try:
                     rec["loaded"] = observe(load(), inst, names)
                 except Exception as e:
                     rec["exc"] = "%s: %s: %s" % (route, type(e).__name__, str(e)[:80])
                 routes_count[route] = routes_count.get(route, 0) + 1
-                meta[rec["id"]] = {"route": route, "inst": inst, "dep": dep, "n": n, "yaml": text if len(text) < 3000 else text[:3000]}
+                meta[rec["id"]] = {"route": route, "inst": inst, "dep": dep, "n": n, "yaml": (t2 if route.startswith("rewritten") else text)[:3000]}
                 recs.append(rec)
     verdicts, jres = judge("Judge_C14", recs, chunk=1500)
     v.add_tlc(jres, "%d round trips judged (Judge_C14 / Wire.tla)" % len(recs))
@@ -179,7 +209,7 @@ def run(tier):
     v.cov["exhaustive"] = False
     v.cov["rule"] = ("TLC-drawn DCOPs over 14 shapes (tables over {0,1,3,-2,10000}, initial values, min/max) with int and str domains shared between "
                      "variables, matrix and expression constraints alternating, 2-4 agents with capacities, partial symmetric route tables, default and "
-                     "specific hosting costs; dumped once, loaded from the string, one file, and the sections split over 2 and 3 files; non-trivial = at "
+                     "specific hosting costs; dumped once, loaded from the string, one file, the sections split over 2 and 3 files, and from an equivalent document rewritten with a non-zero global hosting-cost default next to the agents' own defaults (0 included); non-trivial = at "
                      "least one constraint")
     v.cov["trusted_base"] = ["TLC (Wire.tla)", "vlib/props/C14.py construction and observation of the DCOP"]
     v.assumptions = ["variables with cost functions, external variables and distribution hints are not part of the dumped format and are not generated"]
@@ -190,6 +220,8 @@ def replay(path):
     d = json.load(open(path))["replay"]
     dcop, _ = build(d["inst"], d["dep"], d["n"])
     text = dcop_yaml(dcop)
+    if str(d.get("route", "")).startswith("rewritten"):
+        text = refactored(text, d["n"]) or text
     try:
         l = load_dcop(text)
         print(json.dumps(observe(l, d["inst"], sorted(dcop.agents)))[:1500])
